@@ -43,3 +43,28 @@ Theorem C11_process_is_fresh_when_called :
                  count is_task (qitems (getq (base x) (wq w))) = 0).
 Proof. exact step_one_call_per_process. Qed.
 Print Assumptions C11_process_is_fresh_when_called.
+
+(* ---- a single worker executes calls in the order they were submitted (Proofs/ExecOrder.v):
+   for every program (cancellations, failing calls, every shutdown variant) and schedule the
+   sequence of executed function bodies is a subsequence of the submission order — calls that were
+   cancelled or never reached are skipped, none overtakes another, none runs twice ---- *)
+From EL Require Proofs.ExecOrder.
+Theorem C11_single_worker_submission_order :
+  forall c n prog s tr,
+    nworkers c = 1 -> wf_prog n prog -> ExecOrder.reach_tr c (init n prog) s tr ->
+    ExecOrder.subseq (ExecOrder.bodies tr) (subm s).
+Proof. exact ExecOrder.single_worker_submission_order. Qed.
+Print Assumptions C11_single_worker_submission_order.
+
+Theorem C11_no_call_executed_twice :
+  forall c n prog s tr,
+    nworkers c = 1 -> wf_prog n prog -> ExecOrder.reach_tr c (init n prog) s tr -> NoDup (ExecOrder.bodies tr).
+Proof. exact ExecOrder.no_call_executed_twice. Qed.
+Print Assumptions C11_no_call_executed_twice.
+
+(* with two workers the order is not guaranteed (and the property does not claim it): witness *)
+Theorem C11_two_workers_may_reorder_witness : exists s tr,
+  ExecOrder.reach_tr (mkC 2 (fun _ => false)) (init 2 ExecOrder.ex_prog) s tr /\ ExecOrder.bodies tr = [2; 1] /\ subm s = [1; 2] /\
+  ~ ExecOrder.subseq (ExecOrder.bodies tr) (subm s).
+Proof. exact ExecOrder.two_workers_may_reorder. Qed.
+Print Assumptions C11_two_workers_may_reorder_witness.
